@@ -75,6 +75,17 @@ def findings():
             if not np.array_equal(np.asarray(B.to_dense()).astype(complex), want):
                 bad.append((nm, str(B.dtype)))
         return bool(bad), bad
+    def dot_ident_dtype():
+        A32 = ops.Dense(np.ones((2, 3), dtype=np.float32))
+        bad = []
+        for nm, B, want in (("A32 @ I64", A32 @ ops.Identity((3, 3), np.float64), np.float64), ("Ic64 @ A32", ops.Identity((2, 2), np.complex64) @ A32, np.complex64),
+                            ("I32 @ I64", ops.Identity((2, 2), np.float32) @ ops.Identity((2, 2), np.float64), np.float64)):
+            if np.dtype(B.dtype) != np.dtype(want):
+                bad.append((nm, str(np.dtype(B.dtype))))
+        return bool(bad), bad
+    probe("dot_identity_drops_dtype", "A @ Identity / Identity @ A return the other operand unchanged, so the Identity's dtype does not enter the promoted dtype of the product",
+          dot_ident_dtype, "(Dense(ones((2,3),float32)) @ Identity((3,3),float64)).dtype")
+
     probe("scalarmul_scalar_keeps_real_dtype", "a complex scalar (or complex ScalarMul) times a real ScalarMul keeps the real dtype: the imaginary part is dropped", scal_cplx,
           "(-2+2j) * ScalarMul(3., (2,2), dtype=float32)")
     return out
@@ -389,6 +400,52 @@ def coq_expr(node):
     raise AssertionError(o)
 
 
+def scal_cplx(node):
+    """the scalar of a mul / div node is complex-typed (Python complex, np.complex64, complex 0-d array)"""
+    return node["sk"] == "complex" or bool(node["c"][1])
+
+
+def leaf_dtype_np(t):
+    import functools
+    return functools.reduce(np.promote_types, [np.dtype(d) for d in O.leaf_dts(t)])
+
+
+def dtype_ref(node):
+    """independent reference for the dtype clause: numpy promotion over all operands, scalars weak"""
+    o = node["op"]
+    if o == "leaf":
+        return leaf_dtype_np(node["tree"])
+    if o in ("add", "sub", "dot", "kron", "kronsum"):
+        return np.promote_types(dtype_ref(node["x"]), dtype_ref(node["y"]))
+    if o in ("sum", "block"):
+        import functools
+        return functools.reduce(np.promote_types, [dtype_ref(x) for x in node["l"]])
+    if o == "neg":
+        return dtype_ref(node["x"])
+    if o in ("mul", "div"):
+        a = dtype_ref(node["x"])
+        return np.promote_types(a, np.complex64) if scal_cplx(node) else a
+    raise AssertionError(o)
+
+
+def coq_dexp(node):
+    """dtype skeleton of the expression for coq/AlgDtype.v (leaves: the C01 dtype model of the operator tree)"""
+    o = node["op"]
+    if o == "leaf":
+        if O.has_kind(node["tree"], ("Gen",)):
+            return "DXLeaf " + T.DTC[str(leaf_dtype_np(node["tree"]))]
+        return "DXLeaf (ddtype (" + T.dsk(node["tree"]) + "))"
+    if o in ("add", "sub", "dot", "kron", "kronsum"):
+        return f"DXBin ({coq_dexp(node['x'])}) ({coq_dexp(node['y'])})"
+    if o in ("sum", "block"):
+        return f"DXList ({coq_dexp(node['l'][0])}) [" + ";".join("(" + coq_dexp(x) + ")" for x in node["l"][1:]) + "]"
+    if o == "neg":
+        return f"DXNeg ({coq_dexp(node['x'])})"
+    if o in ("mul", "div"):
+        return f"DXScal {'true' if scal_cplx(node) else 'false'} ({coq_dexp(node['x'])})"
+    raise AssertionError(o)
+
+
 def fix_arrays(node, present, top=True):
     """plain-array leaves only where the algebra accepts them: at most one array operand per binary combinator,
     none directly under scalar multiples / products, not on the left of `-` while __rsub__ is missing"""
@@ -488,7 +545,8 @@ def run(ctx):
         o = dict()
         try:
             A = ev(node)
-            if isinstance(A, np.ndarray):       # the whole expression is a plain array: lazify it
+            was_array = isinstance(A, np.ndarray)
+            if was_array:       # the whole expression is a plain array: lazify it
                 import cola as _cola
                 A = _cola.lazify(A)
             m_, n_ = A.shape
@@ -500,7 +558,7 @@ def run(ctx):
             X = O.rand_mat(rnd, n_, k, dx in T.CPLX)
             Dd = A.to_dense()
             Y = A @ O.np_of(X, n_, k, dx)
-            o = dict(ok=True, shape=[m_, n_], dense=T.to_gauss(Dd), res=T.to_gauss(Y), X=X, dx=dx, type=type(A).__name__, dtype=str(np.dtype(A.dtype)))
+            o = dict(ok=True, shape=[m_, n_], dense=T.to_gauss(Dd), res=T.to_gauss(Y), X=X, dx=dx, type=type(A).__name__, dtype=str(np.dtype(A.dtype)), was_array=was_array)
         except (ValueError, AssertionError) as e:
             o = dict(ok=False, shape_err=True, err=type(e).__name__ + ": " + str(e)[:160])
         except Exception as e:
@@ -530,8 +588,36 @@ def run(ctx):
         if m.group(2).strip():
             failing += [si * shard + int(x) for x in m.group(2).replace("\n", " ").split(";") if x.strip()]
     fs = set(failing)
+    # dtype clause: in-Coq comparison with the promotion model (coq/AlgDtype.v) + independent numpy reference
+    dt_skip_all = bool({"sum_dtype_first", "concat_dtype_first"} & c01_present)       # operand dtypes themselves are off (C01 findings)
+    def dt_region_ok(c):
+        if dt_skip_all:
+            return False
+        if "dot_identity_drops_dtype" in present and "'dot'" in str(c["expr"]) and any(O.has_kind(t, ("Ident",)) for t in all_trees(c["expr"], [])):
+            return False
+        if "scalarmul_scalar_keeps_real_dtype" in present and any(O.has_kind(t, ("Scal",)) for t in all_trees(c["expr"], [])):
+            return False
+        return True
+    dt_idx = [i for i, (c, o) in enumerate(zip(cases, obs)) if o.get("ok") and o.get("dtype") in T.DTC and not o.get("was_array") and dt_region_ok(c)]
+    dt_fail = set()
+    for s0 in range(0, len(dt_idx), 400):
+        part = dt_idx[s0:s0 + 400]
+        body = ("From Coq Require Import List.\nFrom Core Require Import DtypeTable Dtype AlgDtype.\nImport ListNotations.\nDefinition cases : list (dexp * dt) := [\n" +
+                ";\n".join("((" + coq_dexp(cases[i]["expr"]) + "), " + T.DTC[obs[i]["dtype"]] + ")" for i in part) + "].\nEval vm_compute in (length cases, dfailing 0 cases).\n")
+        rc, out = core.coqc_text(f"c03dt_{s0 // 400}", body, 600)
+        m = re.search(r"=\s*\((\d+),\s*\[(.*?)\]\)", out, flags=re.S)
+        if rc != 0 or not m or int(m.group(1)) != len(part):
+            mism.append(dict(oracle_fail=False, harness_error=f"dtype shard {s0 // 400}: rc={rc}\n{out[-1500:]}"))
+            continue
+        if m.group(2).strip():
+            dt_fail |= {part[int(x)] for x in m.group(2).replace("\n", " ").split(";") if x.strip()}
+    dt_set = set(dt_idx)
     for i, (c, o) in enumerate(zip(cases, obs)):
         bad = []
+        if i in dt_set and np.dtype(o["dtype"]) != dtype_ref(c["expr"]):
+            bad.append(f"result dtype {o['dtype']} is not the promoted dtype {dtype_ref(c['expr'])} of the operands")
+        if i in dt_fail:
+            fs.add(i)
         if c["expect_error"]:
             if o.get("ok") or not o.get("shape_err"):
                 bad.append("incompatible shapes not rejected with a shape error: " + str(o.get("err", "returned an operator")))
@@ -557,5 +643,5 @@ def run(ctx):
              "scalars of 5 Python/numpy types, ~6%% shape-mismatched + and @ ; non-trivial = at least 3 nodes; distinct by expression hash" % ctx.budget(12, 30),
         samples=[cases[0]["expr"], cases[1]["expr"]],
         mismatches=mism, findings=fnd,
-        extra=dict(operator_histogram=ops_hist, expected_shape_errors=sum(1 for c in cases if c["expect_error"]),
+        extra=dict(operator_histogram=ops_hist, expected_shape_errors=sum(1 for c in cases if c["expect_error"]), dtype_clause_cases=len(dt_idx),
                    impl_exceptions=sum(1 for o in obs if not o.get("ok")), result_types={t: sum(1 for o in obs if o.get("type") == t) for t in sorted({o.get("type") for o in obs if o.get("type")})}))
